@@ -360,6 +360,8 @@ def run(ctx, rep):
     AR.check_frame_api(fx, rep, "C01.api")
     AR.check_mapper_constructors(fx, rep, "C01.api")
     AR.check_mapping_wiring(fx, rep, "C01.api")
+    import parser_rules as PRM
+    PRM.check_parser_premises(fx, rep, "C01.P2")
     run_controls(ctx, rep)
 
 
